@@ -484,6 +484,19 @@ func genC11(t *rapid.T) *c11Case {
 				HTTPS: rapid.Bool().Draw(t, fmt.Sprintf("https-%d", h)), Extra: rapid.SampledFrom([]string{"", "x", "a: b", "quo\"te"}).Draw(t, fmt.Sprintf("extra-%d", h))})
 		}
 	}
+	// the same target (same final labels and URL, hence the same hash) may be assigned under two jobs of one shard: two
+	// scrape configs that scrape the same endpoint and relabel `job` alike
+	if len(c.Targets) > 0 && len(c.Spec.Jobs) > 1 && rapid.IntRange(0, 3).Draw(t, "sameTargetInTwoJobs") == 0 {
+		src := c.Targets[rapid.IntRange(0, len(c.Targets)-1).Draw(t, "dupOf")]
+		for _, j := range c.Spec.Jobs {
+			if j.Name != src.Job {
+				dup := src
+				dup.Job = j.Name
+				c.Targets = append(c.Targets, dup)
+				break
+			}
+		}
+	}
 	switch rapid.IntRange(0, 6).Draw(t, "followUp") {
 	case 6:
 		c.FollowUp = "stopScrape"
